@@ -7,5 +7,5 @@ MCShapes == AllSessionShapes
 MCScript == IF MCLong THEN <<"SetObj", "LoadRaw", "CopyTo">> ELSE <<"SetObj", "LoadRaw", "CopyTo">>
 MCProps == {"C06"}
 ASSUME PrintT("SHAPES " \o ToJson(MCShapes))
-INSTANCE Session WITH Shapes <- MCShapes, Script <- MCScript, Deep <- MCDeep, Props <- MCProps, ObjMode <- "all", RawMode <- "reduced"
+INSTANCE Session WITH Shapes <- MCShapes, Script <- MCScript, Deep <- MCDeep, Props <- MCProps, ObjMode <- "all", RawMode <- "reduced", EmptyMode <- "plain"
 ====
